@@ -6,9 +6,9 @@
  "mode": "harness", "post_macro": "POST_PUNCT",
  "replace_calls": {"nextchar": "nextchar_spec", "stringlit": "stub_stringlit", "charconst": "stub_charconst",
                    "ident": "stub_ident", "number": "stub_number", "comment": "stub_comment"},
- "kind": "proof-const-unwind",
+ "kind": "proof-const-unwind", "unwind": 24, "unwind_failure": "violation",
  "bound": "a punctuator is at most 4 characters + 1 of look-ahead: the window is 6 symbolic logical characters (any bytes, any shorter file), each preceded by 0 or 1 backslash-newline pair; blank-skipping loop of scankind unwound twice (not entered)",
- "unwindset": ["scankind.0:2"],
+ "unwindset": ["scankind.0:2", "gs_build.0:50", "gs_build.1:50", "gs_build.2:50"],
  "stubs": ["base.c", "ghost_stdio.c"],
  "cbmc_flags": ["--drop-unused-functions"],
  "timeout": 200,
